@@ -27,7 +27,8 @@ CHECKS = {
         note=("Simulated threads interleave only at op and callback boundaries (traits promises "
               "nothing under data races); handler order is never asserted; where a comparison "
               "raises only agreement between mechanisms is required."
-              " Later passes added: both static spellings (_x_changed/_x_fired) for one trait, add_trait of the same definition over a class trait."),
+              " Later passes added: both static spellings (_x_changed/_x_fired) for one trait, add_trait of the same definition over a class trait."
+              " Sixth pass: one ready-made definition object bound to two names / declared by an unrelated class with its own static handler, no call for a trait a handler was never registered for, runs under the library's default (logging) exception handlers with unprintable values."),
         technique=TECH + "seeded assignment/registration/delivery histories with handler-fault "
                          "injection under a simulated scheduler, checked against a change model",
         design="4 (C02)"),
@@ -47,7 +48,8 @@ CHECKS = {
               "observe recorders. Sampling, not proof."),
         note=("Trusts the hand-written models of Int/CInt/String/List item conversion; a "
               "container whose owner died stops validating by design and is not checked."
-              " Later passes added: Undefined as an element, a falsy owner object, the oracle that an inner list stored by an earlier operation is the observed one."),
+              " Later passes added: Undefined as an element, a falsy owner object, the oracle that an inner list stored by an earlier operation is the observed one."
+              " Sixth pass: containers inside Union(...) on an object without any recorder (first mutation adds the items companion), a Dict whose value class is named by a string, a bounded List whose implicit default is too short."),
         technique=TECH + "seeded op/fault/restart histories on container traits against plain "
                          "Python container models with bounds",
         design="4 (C04)"),
@@ -93,7 +95,8 @@ CHECKS = {
               "it. Sampling, not proof."),
         note=("Trusts CPython's set as the model; pop() is arbitrary so the model follows the "
               "system's choice; coercible spellings are fresh numbers (never collide with a "
-              "member)."),
+              "member)."
+              " Sixth pass: operand classes for the in-place operators (frozenset, TraitSet, set subclass)."),
         technique=TECH + "seeded op/fault/restart histories refined against a built-in set "
                          "model, ddmin-shrunk JSON replay",
         design="4 (C05/C06/C07)"),
@@ -118,7 +121,8 @@ CHECKS = {
               "trait's own constant default object (K3) are excluded by model-side guards and "
               "reported via stored witnesses; conflicting re-entrant mutation is not generated; "
               "containers never hold None."
-              " Later passes added: a replaced container mutated through an alias; known findings K3 and K4 (constant default objects of never-read traits) are excluded by guards with stored witnesses."),
+              " Later passes added: a replaced container mutated through an alias; known findings K3 and K4 (constant default objects of never-read traits) are excluded by guards with stored witnesses."
+              " Sixth pass: instance traits carrying metadata (added before/after insertion, or with another node's definition object), a Dict-of-Lists link (shelf.items.items)."),
         technique=TECH + "seeded graph-mutation histories with probes after every step against a "
                          "from-scratch reachability model; simulated scheduler for ui dispatch",
         design="4 (C08)"),
@@ -142,7 +146,8 @@ CHECKS = {
         note=("Poison objects are placed only while no registration exists; level-aliasing "
               "histories (K1) are excluded by the model-side guard; re-entrant (un)registration "
               "is restricted to registrations whose walk the in-flight change does not re-hook."
-              " Later passes added: del and redefinition (add_trait on an existing name) of observed traits, and a reincarnated owner of a registered bound-method handler (address reuse; a violation found there replays only when the allocator co-operates)."),
+              " Later passes added: del and redefinition (add_trait on an existing name) of observed traits, and a reincarnated owner of a registered bound-method handler (address reuse; a violation found there replays only when the allocator co-operates)."
+              " Sixth pass: the UI handler installed after the first registrations; metadata instance traits and the Dict-of-Lists link of the graph world."),
         technique=TECH + "seeded registration/graph/fault histories with notifier-population "
                          "snapshots, placement faults on the registration walk, gc/drop events "
                          "and a simulated scheduler",
@@ -165,7 +170,8 @@ CHECKS = {
         note=("Reads happen at quiescent points; level-aliasing graphs (K1) are excluded; the "
               "fork uses traits' copy mode 'deep' because plain deepcopy shares Dict items by "
               "reference (observation O3)."
-              " Later passes added: objects constructed with keyword values (class-level handlers read defaults during construction), del of dependency traits."),
+              " Later passes added: objects constructed with keyword values (class-level handlers read defaults during construction), del of dependency traits."
+              " Sixth pass: a cached property over a Dict of Lists (shelf.items.items.value)."),
         technique=TECH + "seeded dependency-mutation/read/restart histories against a "
                          "recomputation model, getters as counting callback points",
         design="4 (C12)"),
@@ -186,7 +192,8 @@ CHECKS = {
               "side (its documentation says such an event 'may' be reported); agreement is "
               "boolean; 1- and 2-argument legacy handlers are rejected by traits itself for "
               "intermediate changes and not used."
-              " Later passes added: del of link traits, replaced containers mutated through an alias."),
+              " Later passes added: del of link traits, replaced containers mutated through an alias."
+              " Sixth pass: '+tag' (metadata) as the final step of the name in both systems, deferred=True registrations; F11 fixed in /repo."),
         technique=TECH + "seeded mutation histories on trees with probes, legacy listener vs "
                          "observe vs from-scratch reachability model",
         design="4 (C16)"),
@@ -213,7 +220,8 @@ CHECKS = {
         note=("Snapshots compare by read-equivalence (copying materialises defaults on the "
               "original); copy='ref' links are supposed to share; copy.copy of whole objects is "
               "shallow by definition and not part of the statement."
-              " Later passes added: a settable Property stored under another dictionary name, a PrototypedFrom attribute declared before its prototype (known finding K5 excluded by a guard, stored witness)."),
+              " Later passes added: a settable Property stored under another dictionary name, a PrototypedFrom attribute declared before its prototype (known finding K5 excluded by a guard, stored witness)."
+              " Sixth pass: copies must report traits_inited()."),
         technique=TECH + "seeded edit/restart/fork/clone histories against a plain-Python model "
                          "with a liveness battery after every restore; crash triage in child "
                          "interpreters",
@@ -243,7 +251,8 @@ CHECKS = {
         note=("Defaults are compared structurally; the class trait dict caching resolved "
               "wildcard traits for names that were merely looked up is not counted as a change "
               "of definitions."
-              " Later passes added: a _<x>_changed_for_<trait> listener and handlers registered on a name that exists only through the class's wildcard definition."),
+              " Later passes added: a _<x>_changed_for_<trait> listener and handlers registered on a name that exists only through the class's wildcard definition."
+              " Sixth pass: Any defaults that are instances of list/dict subclasses, a mapped trait with a default method and a listener on its shadow value."),
         technique=TECH + "seeded multi-instance histories (creation order, gc, drop, restart) "
                          "with default factories and handlers as callback points, "
                          "non-interference checked against per-instance models",
@@ -267,7 +276,8 @@ CHECKS = {
               "Sampling, not proof."),
         note=("The delegate link always holds an object; swapping the delegate itself is not "
               "required to notify."
-              " Later passes added: delegates that all compare equal (value objects)."),
+              " Later passes added: delegates that all compare equal (value objects)."
+              " Sixth pass: delegate links whose defaults come from methods returning existing objects (never assigned, never read by the harness), assignment of the very object an attribute reads as."),
         technique=TECH + "seeded two-sided assignment/swap/delete histories with gc, drop and "
                          "restart events against a pointer-following model",
         design="4 (C11)"),
@@ -287,7 +297,8 @@ CHECKS = {
         note=("add_trait is applied to names the instance has not accessed under the previous "
               "rule; pickle restart is left to C14 (what survives a pickle would blur this "
               "oracle)."
-              " Later passes added: container instance traits and their <name>_items companions."),
+              " Later passes added: container instance traits and their <name>_items companions."
+              " Sixth pass: Union(None, List) class traits whose items companion an in-place mutation adds to one instance only; the value side effect of remove_trait on a companion name is re-read, not predicted."),
         technique=TECH + "seeded class hierarchies and access histories over several instances "
                          "(resolution order as schedule) against a rule model",
         design="4 (C13)"),
@@ -312,7 +323,8 @@ CHECKS = {
               "links onto an independently changed target is not compared; link graphs with "
               "redundant paths between List traits are excluded by a guard (known finding K2, "
               "stored witness)."
-              " Later passes added: a List whose default comes from a method, handlers closing over their own object, a liveness check after every drop."),
+              " Later passes added: a List whose default comes from a method, handlers closing over their own object, a liveness check after every drop."
+              " Sixth pass: a List trait whose name ends in '_items'."),
         technique=TECH + "seeded two-sided assignment/mutation/link histories with partner "
                          "gc/drop events (also injected inside handlers) against a link-graph "
                          "propagation model",
@@ -343,7 +355,8 @@ CHECKS = {
               "a non-last Union alternative ('this alternative rejects') are not injection "
               "points; raw TraitList notifiers are documented as not expected to raise and are "
               "not change handlers; default materialisation is not an effect."
-              " Later passes added: histories under the library's default exception handlers, exceptions with non-string arguments."),
+              " Later passes added: histories under the library's default exception handlers, exceptions with non-string arguments."
+              " Sixth pass: del with a failing default method, sync_trait / unsync as ops, an extended legacy name through a lazily defaulted link, a second adaptation offer; F12-F14 fixed in /repo, K6 recorded (second hand-over of a mutual sync_trait is not injected)."),
         technique=TECH + "twin worlds with exhaustive enumeration of (op, callback site, "
                          "ordinal, exception class) injections per sampled history, "
                          "snapshot/suffix comparison against fault-free and skip twins",
@@ -373,7 +386,8 @@ CHECKS = {
               "counter. Allocation-failure injection is rejected (DESIGN 4/C18). In-range but "
               "inconsistent state tuples (type confusion by construction) are outside the "
               "statement's 'calls through the documented API'."
-              " Later passes added: attribute fuzz on trait definition objects, ill-formed arguments to the multi-argument CTrait setters followed by use, original-value traits with dynamic defaults."),
+              " Later passes added: attribute fuzz on trait definition objects, ill-formed arguments to the multi-argument CTrait setters followed by use, original-value traits with dynamic defaults."
+              " Sixth pass: exact float/int/str values offered to numeric validators alone and inside compound traits (reference counts), failing default methods under three warning modes with the exception chain walked."),
         technique=TECH + "sanitised re-execution of all simulated workloads plus adversarial "
                          "re-entrancy/gc-storm/corrupted-state worlds; refcount and allocation "
                          "plateau oracles against a holder-count model",
